@@ -68,6 +68,9 @@ class PrefixChooser:
 # single_thread_prefetch
 # =================================================================================================
 
+from canon import Hang as _Hang   # the harness's own per-case alarm: never taken for an exception of the code under test
+
+
 class TokenSched:
     def __init__(self, chooser, max_steps=5000):
         self.cv = threading.Condition()
@@ -440,6 +443,8 @@ class StpRun:
                         sched.record(k='resume')
             except Abort:
                 pass
+            except _Hang:
+                raise
             except BaseException as e:  # noqa  the exception of the background work
                 from fnmenu import exc_name
                 self.raised = exc_name(e)
@@ -575,6 +580,8 @@ class CoopPool:
                 self.calls_after_return += 1
             try:
                 f.value = f.fn(*f.args, **f.kwargs)
+            except _Hang:
+                raise
             except BaseException as e:  # noqa
                 f.exc = e
             f.state = 'done'
@@ -685,6 +692,8 @@ class LpmRun:
                         pool.events.append({'k': 'resume'})
             except Deadlock:
                 self.deadlock = True
+            except _Hang:
+                raise
             except BaseException as e:  # noqa
                 self.raised = exc_name(e)
         finally:
@@ -795,6 +804,8 @@ class ApiLpmRun:
                         k += 1
                 except Deadlock:
                     self.deadlock = True
+                except _Hang:
+                    raise
                 except BaseException as e:  # noqa
                     self.raised = exc_name(e)
         finally:
